@@ -103,8 +103,14 @@ def calculateSunVizFraction(tgt_eci_position: ndarray, sun_eci_position: ndarray
     # Montenbruck, Eqs. 3.85 to 3.87
     a = arcsin(Sun.radius / norm(sat_sun_vector))
     b = arcsin(Earth.radius / norm(tgt_eci_position))
+    # [NOTE]: Clip against rounding when the Earth and the Sun are exactly aligned as seen from the satellite
     c = arccos(
-        dot(-tgt_eci_position, sat_sun_vector) / (norm(tgt_eci_position) * norm(sat_sun_vector)),
+        clip(
+            dot(-tgt_eci_position, sat_sun_vector)
+            / (norm(tgt_eci_position) * norm(sat_sun_vector)),
+            -1.0,
+            1.0,
+        ),
     )
 
     # No occultation is possible if the satellite is closer to the Sun than the ECI origin
